@@ -1,5 +1,5 @@
 """C20 — h-h/2 and hierarchical estimators equal their definitions (DESIGN 4.C20)."""
-from vlib.core import Check
+from vlib.core import Check, guarded
 from pyvc.driver import verify_contracts, ENGINE_ASSUMPTIONS
 from pyvc import arrays, extio
 from pyvc.engine import Ext
@@ -33,7 +33,7 @@ def run(tier, seed):
     smt.close_pool()
     try:
         from bounded import estimator_rel
-        estimator_rel.run_c20(chk, tier, seed)
+        guarded(chk, 'bounded part estimator_rel.run_c20', estimator_rel.run_c20, chk, tier, seed)
     except ImportError:
         chk.notes.append("bounded comparison with real bisection not built yet")
     return chk.finish()
